@@ -5,9 +5,14 @@ import OV.Drivers.Loop
 * `C16 row <codes> <cx:0|1> <scripted|traced> <res> P <aarg>* K <aarg>* S <param>*` → `ok` | defects joined by `,`
   (`codes` = code points of the qualified name joined by `,`; `aarg` = five `/`-separated fields
   name, base, `L` (list), `O` (optional), `D` (has default), a dash standing for "no";
-  `param` = six fields name, `I` or `A`, attribute type, `R` (required), `V` (variadic), `P` (positional-or-keyword))
+  `param` = eight fields name, `I` or `A`, attribute type, `R` (required), `V` (variadic), `P` (positional-or-keyword),
+  annotation category (`missing`, `base:int`, `seqOf:int`, `otherOrigin`, `otherPlain`), `D` (python default))
+* `C16 rowk <same arguments as row>` → `true` | `false` (`bindsOkK`: also right for positional-by-keyword calls)
+* `C16 accepts <mode> <param> <aarg>` → `true` | `false`
 * `C16 bind <scripted|traced> <npos> <kw,kw|-> S <param>*` → `ok <slot>,<slot>…` (`p<i>` | `k:<name>` | `-`) | `err:<kind>`
 * `C16 name <codes>` → `true` | `false`
+* `C16 resolve <codes>` → `ns|name|overload`;  `C16 dispatch <c|r> <func>/<c|r> …` → chosen func | `none`
+* `C16 decls <func>/<p|-><c|r>/<codes>;<codes>… …` → registry dump | `ValueError`
 * `C16 reg <func>/<name>/<c|r> …` → registry dump ` # ` torchlibOps dump
 -/
 namespace OV.Drivers.C16
@@ -30,9 +35,25 @@ def parseAArg (t : String) : Option AArg :=
   | [n, b, l, o, d] => (parseBase b).map (fun b => ⟨n, b, l == "L", o == "O", d == "D"⟩)
   | _ => none
 
+def parsePyT : String → Option PyT
+  | "int" => some .int | "float" => some .float | "str" => some .str | "bool" => some .bool
+  | "tensor" => some .tensor | "graph" => some .graph | _ => none
+
+def parseAnnot (t : String) : Option Annot :=
+  match t.splitOn ":" with
+  | ["missing"] => some .missing
+  | ["otherOrigin"] => some .otherOrigin
+  | ["otherPlain"] => some .otherPlain
+  | ["base", x] => (parsePyT x).map .base
+  | ["seqOf", x] => (parsePyT x).map .seqOf
+  | _ => none
+
 def parseParam (t : String) : Option OParam :=
   match t.splitOn "/" with
-  | [n, i, a, r, v, p] => (parseAttr a).map (fun a => ⟨n, i == "I", a, r == "R", v == "V", p == "P"⟩)
+  | [n, i, a, r, v, p, an, d] => do
+    let a ← parseAttr a
+    let an ← parseAnnot an
+    pure ⟨n, i == "I", a, r == "R", v == "V", p == "P", an, d == "D"⟩
   | _ => none
 
 def parseMode : String → Option Mode
@@ -65,7 +86,7 @@ def showClause : Clause → String
   | .requiredBound => "requiredBound"
 
 def showDefect : Defect → String
-  | .undefinedOp => "undefinedOp" | .badName => "badName" | .clause c => showClause c
+  | .undefinedOp => "undefinedOp" | .badName => "badName" | .sigClass => "sigClass" | .clause c => showClause c
 
 def showSlot : Option Src → String
   | none => "-" | some (.pos i) => s!"p{i}" | some (.kw n) => s!"k:{n}"
@@ -92,6 +113,17 @@ def handle (args : List String) : String :=
           if e.defects.isEmpty then "ok" else ",".intercalate (e.defects.map showDefect)
         | _, _, _ => "bad-op")
      | _, _, _, _ => "bad-op")
+  | "rowk" :: _ :: _ :: m :: _ :: rest =>
+    (match parseMode m, sections rest with
+     | some m, some (ps, ks, ss) =>
+       (match ps.mapM parseAArg, ks.mapM parseAArg, ss.mapM parseParam with
+        | some ps, some ks, some ss => toString (bindsOkK m ⟨ps, ks⟩ ss)
+        | _, _, _ => "bad-op")
+     | _, _ => "bad-op")
+  | ["accepts", m, prm, arg] =>
+    (match parseMode m, parseParam prm, parseAArg arg with
+     | some m, some p, some a => toString (accepts m p a)
+     | _, _, _ => "bad-op")
   | "bind" :: m :: npos :: kws :: "S" :: ss =>
     (match parseMode m, npos.toNat?, ss.mapM parseParam with
      | some m, some npos, some ss =>
@@ -103,6 +135,32 @@ def handle (args : List String) : String :=
   | ["name", cs] =>
     (match parseCodes cs with
      | some cs => toString (nameOkCodes cs)
+     | none => "bad-op")
+  | ["resolve", cs] =>
+    (match parseCodes cs with
+     | some cs =>
+       let k := resolveKey cs
+       let sh := fun (l : List Nat) => String.ofList (l.map Char.ofNat)
+       s!"{sh k.ns}|{sh k.name}|{sh k.overload}"
+     | none => "bad-op")
+  | "dispatch" :: cx :: ds =>
+    (match ds.mapM (fun t => match t.splitOn "/" with
+                             | [f, k] => f.toNat?.map (fun f => (⟨f, k == "c"⟩ : Decomp))
+                             | _ => none) with
+     | some ds => (match dispatch ds (cx == "c") with | some f => toString f | none => "none")
+     | none => "bad-op")
+  | "decls" :: ds =>
+    -- each: <func>/<p|-><c|r>/<name>;<name>… (names as code-point lists joined by `;`, code points by `,`)
+    (match ds.mapM (fun t => match t.splitOn "/" with
+        | [f, fl, ns] => do
+          let f ← f.toNat?
+          let names ← (ns.splitOn ";").mapM (fun n => (parseCodes n).map (fun (cs : List Nat) => String.ofList (cs.map Char.ofNat)))
+          pure (⟨f, names, fl.startsWith "p", fl.endsWith "c"⟩ : Decl)
+        | _ => none) with
+     | some ds =>
+       (match runDecls [] ds with
+        | some r => ";".intercalate (r.map (fun (o : Overloaded) => s!"{o.name}={showNats o.overloads}|{showNats o.complex}"))
+        | none => "ValueError")
      | none => "bad-op")
   | "reg" :: rs =>
     (match rs.mapM parseReg with
